@@ -16,8 +16,8 @@ from gen import H, O
 from vlib import run_driver_parallel, unhex
 from props.C14 import snapmap
 
-FOREIGN_DIRS = [b"", b"outside", b"outside/sub", b"outside/sub/c"]          # "" = the sandbox directory itself (the root's parent)
-ATTACKER_NAMES = {b"outside/stolen_b", b"outside/stolen_a", b"outside/stolen_e"}
+FOREIGN_DIRS = [b"", b"outside", b"outside/sub", b"outside/sub/c", b"root (deleted)"]          # "" = the sandbox directory itself (the root's parent)
+ATTACKER_NAMES = {b"outside/stolen_b", b"outside/stolen_a", b"outside/stolen_e", b"root (deleted)/stolen_a2", b"root (deleted)/stolen_d2"}
 
 MUTATORS = [
     {"k": "remove_all", "path": H("d")},
